@@ -670,14 +670,23 @@ func (s String) find(args Tuple) (Object, error) {
 		end  = int(pyend.(Int))
 		size = s.len()
 	)
-	if beg > size {
-		beg = size
-	}
-	if end < 0 {
-		end = size
-	}
+	// start and end are interpreted as in slice notation
 	if end > size {
 		end = size
+	} else if end < 0 {
+		end += size
+		if end < 0 {
+			end = 0
+		}
+	}
+	if beg < 0 {
+		beg += size
+		if beg < 0 {
+			beg = 0
+		}
+	}
+	if beg > end {
+		return Int(-1), nil
 	}
 
 	var (
